@@ -29,6 +29,34 @@ CHECKS = {
    design="DESIGN.md §5 C08",
    note=TB + "Description de-indentation and annotation whitespace normalisation are checked only as far as the named rules say.",
    technique="symmetry and typestate checks on the extracted scanner automaton"),
+ "C10": dict(
+   engine="rules/c10.go (AST + go/cfg + go/types)",
+   category="other",
+   text="Decides the mechanisms PASTE transparency rests on: macro cycles of any length are rejected before expansion (three-colour visited-state discipline verified on the CFG: mark-before-descend, done-on-every-nil-return, on-path test before entering), undefined/unnamed macros are errors, MACRO definitions are removed before expansion, expansion works on reset copies and restores the copy's parent after an explicit context. Equality with the in-place text for every call site is behavioural and not claimed.",
+   design="DESIGN.md §5 C10",
+   note=TB + "The rule recognises the visited-state idiom (map from macro name to a named integer state); a different algorithm is reported as undecided/violation rather than accepted.",
+   technique="typestate/pairing and dominance rules over go/cfg; who-may-write rule for the context field"),
+ "C11": dict(
+   engine="E2 directive tables + rules/c11.go + E1",
+   category="other",
+   text="The context table in the source equals the frozen JSight 0.3 reference pair by pair, and the resolution algorithm has the required control structure (single context cursor, attach only under the allowed lookup, walk-up only from implicit contexts, explicit contexts reject, ')' closes the innermost explicit context). The verdict for each concrete directive sequence (table x algorithm product) is not enumerated.",
+   design="DESIGN.md §5 C11",
+   note=TB + "tools/reference/context_table.json is the oracle for the table; it was derived from the pinned tree and reviewed against the language description.",
+   technique="typed-literal table extraction compared with a reference relation; control-dependence/dominance rules on processContext"),
+ "C14": dict(
+   engine="rules/c14.go + rules/strpred.go (predicate automaton)",
+   category="other",
+   text="For all parameter strings and include graphs (modulo symlinks/OS path semantics): who-may-call for file primitives, validate-before-stat on the same value, language inclusion of the name predicate in the safe language decided on a product automaton (counterexample word printed), and the cycle guard of the scanner stack. Thorough tier repeats who-may-call over the whole-program VTA call graph through the dependency.",
+   design="DESIGN.md §5 C14",
+   note=TB + "A predicate written outside the supported atom set (==, s[0], len, strings.Contains/HasPrefix/HasSuffix/ContainsRune/ContainsAny, range over strings.Split) is reported as undecided.",
+   technique="who-may-call + must-pass-through on go/cfg; regular-language inclusion of the extracted name predicate"),
+ "C19": dict(
+   engine="rules/c19.go",
+   category="other",
+   text="For every directive kind: construction of a Directive from a scanned keyword, the INCLUDE handler's file access and the handler dispatch are each dominated by a by-kind comma-ok lookup of the ban set whose hit branch returns an error; the ban set is written only by WithBannedDirectives into a map made per core and otherwise only looked up. That the message/line equals the expected text for every layout is not claimed.",
+   design="DESIGN.md §5 C19",
+   note=TB + "Interprocedural guard search is bounded to 3 caller levels in package core.",
+   technique="dominance (must-pass-through) of guard lookups on go/cfg; read/write discipline of one field"),
 }
 
 NOT_APPLICABLE = {
